@@ -12,10 +12,14 @@ from vlib import runner
 
 ID = "C05"
 MODULE = "PotasscoVerif.Props.C05"
-THEOREMS = ["PotasscoVerif.C05.C05_refused_rule", "PotasscoVerif.C05.C05_refused_sum", "PotasscoVerif.C05.C05_refused_output",
+THEOREMS = ["PotasscoVerif.C05.C05_roundtrip", "PotasscoVerif.C05.C05_weights_kept", "PotasscoVerif.C05.C05_body_order",
+            "PotasscoVerif.C05.C05_refused_rule", "PotasscoVerif.C05.C05_refused_sum", "PotasscoVerif.C05.C05_refused_output",
             "PotasscoVerif.C05.C05_refused_external", "PotasscoVerif.C05.C05_refused_assume", "PotasscoVerif.C05.C05_refused_incremental",
-            "PotasscoVerif.C05.C05_refused_unsupported", "PotasscoVerif.C05.C05_body_order", "PotasscoVerif.C05.C05_value_code"]
-PARTIAL = {"C05_roundtrip": "the round trip through the reader model for whole programs is not a theorem; decided by correspondence (both models == real classes) + canon round-trip oracle"}
+            "PotasscoVerif.C05.C05_refused_unsupported", "PotasscoVerif.C05.C05_value_code",
+            "PotasscoVerif.SmRT.ruleLine_rt", "PotasscoVerif.SmRT.rulesLoop_rt", "PotasscoVerif.SmRT.symbolsLoop_rt", "PotasscoVerif.SmRT.compute_rt",
+            "PotasscoVerif.SmRT.step_rt", "PotasscoVerif.SmRT.run_step", "PotasscoVerif.SmRT.write_prog", "PotasscoVerif.SmRT.sm_stepsLoop_rt"]
+PARTIAL = {"buffering": "C05_roundtrip is about the reader model on the abstract character stream; that the buffered stream shows exactly that stream is C09_transparent (cited); "
+           "the optional 'E' section and symbol-table conversions (options of SmodelsInput) are not produced by SmodelsOutput and are outside this property (C07/C08)"}
 BSIZES = (16, 17, 4096)
 RULE = ("call sequences in the writer's order (rules/minimize/externals, symbols, at most one compute statement per step), 1-3 steps with extensions, any false atom, "
         "bodies with any mix of positive/negative literals, weights 0..2^31-1 (negative for minimize); plus out-of-fragment variants (empty head without false atom, negative bound, "
@@ -23,12 +27,15 @@ RULE = ("call sequences in the writer's order (rules/minimize/externals, symbols
         "distinct = distinct (ext,false,calls); non-trivial = at least 4 calls besides I/B/E")
 TRUSTED = []
 ASSUMPTIONS = ["symbol names without line ends and NUL; |weights| <= 2^31-1"]
-TECHNIQUE = "Lean 4 theorems on writer/reader models (fragment characterisation, body reordering is a permutation) + differential correspondence of both models with SmodelsOutput/SmodelsInput + canon round-trip oracle"
-LEVEL_TEXT = ("C05_refused_*: for every kind of call, exactly when the writer model refuses it (rule/sum rule/output/external/compute/incremental/unsupported directives) — the "
-              "'refused instead of written incorrectly' half of the property, call by call; C05_body_order: the writer's reordering of body literals is a permutation keeping "
-              "the order inside the negative and the positive group; C05_value_code. The round trip itself is decided by writer model == real SmodelsOutput (bytes and "
-              "refusal), reader model == real SmodelsInput, and the canon(p) round-trip oracle on the implementation for BUF_SIZE 16/17/4096, extensions on/off.")
-LEVEL_NOTE = "Partial proof + correspondence (~2.5k quick / 80k thorough programs). Trusted: Lean kernel+axioms, canon() in props/c05.py (written from the property text), harness."
+TECHNIQUE = "Lean 4 round-trip theorem read(write(p)) = canon(p) for every program of the fragment (writer section state machine in closed form; reader by induction over lines, sections, steps) + refusal characterisation + differential correspondence of both models with SmodelsOutput/SmodelsInput + canon round-trip oracle"
+LEVEL_TEXT = ("C05_roundtrip: for EVERY program of the documented fragment — per step rules/integrity constraints via the false atom/cardinality and weight rules with bound >= 0/"
+              "minimize statements/externals (with extensions), then symbol-table entries, then at most one compute statement; one step or any number with extensions; all arguments in "
+              "range; any false atom — the writer model refuses nothing and the reader model, run on exactly the bytes written, delivers the canonical program (canonCalls: body literals "
+              "negative-first = a permutation (C05_body_order), weights kept (C05_weights_kept), a negative minimize weight as its absolute value on the complementary literal, minimize "
+              "priorities 0,1,.., symbol table and externals identical, compute statement as integrity constraints) and no error. C05_refused_*: for every kind of call exactly when the "
+              "writer refuses it. Tied to the code per run: writer model == real SmodelsOutput (bytes and refusal), reader model == real SmodelsInput, canon(p) oracle on the implementation "
+              "for BUF_SIZE 16/17/4096, extensions on/off.")
+LEVEL_NOTE = "Full proof on the models + correspondence (~2.5k quick / 80k thorough programs). Trusted: Lean kernel+axioms, canon() in props/c05.py (written from the property text; the Lean canonCalls is its counterpart), harness."
 I32 = 2**31 - 1
 
 def lst(xs): return "-" if not xs else "/".join(str(x) for x in xs)
